@@ -36,6 +36,7 @@ def run(ctx) -> None:
             cases.append((mn, ops))
     cmp_tags = set()
     n_rewrite = 0
+    case_rewrites = {}
     for mn, ops in cases:
         def thunk(I, mn=mn, ops=ops):
             rng = I.construct(vr, [], {"min_addr": Str((Hole("MIN", "bound", True),)),
@@ -52,7 +53,11 @@ def run(ctx) -> None:
         for p in I.explore(thunk):
             inst = p.run.user.get("inst")
             if p.kind != "return":
-                # a raise is loud; only int() of a non-hex target may raise and that is outside the property
+                # only int() of a non-hex *direct* target may raise (outside the property); an indirect branch or an
+                # operand-less instruction must pass through untouched
+                if ops in ("star", "none"):
+                    ctx.fail("C18.V3.guard-structure", construct, f"raises {p.exc.type_name} on an instruction it must pass through",
+                             "indirect branches and operand-less instructions pass through the observer unchanged")
                 continue
             v = p.value
             conds = {str(k): val for k, val, _ in p.conds}
@@ -71,6 +76,7 @@ def run(ctx) -> None:
                 ctx.fail("C18.V4.rewrite-shape", construct, "returns None", "no path may drop the instruction")
                 continue
             n_rewrite += 1
+            case_rewrites[(mn, ops)] = case_rewrites.get((mn, ops), 0) + 1
             star = [val for k, val, _ in p.conds if isinstance(k, tuple) and k[0] == "in" and "*" in str(k[1])]
             guards_ok = ops in ("T", "T,x") and mn != "mov" and len(cmps) == 2 and all(val for _, val in cmps) and \
                 (not star or not any(star))
@@ -86,6 +92,9 @@ def run(ctx) -> None:
                       "the tagged instruction keeps address and mnemonic and has the single operand 'valid_addr'")
         if mn == "mov" or ops in ("none", "star"):
             ctx.ok("C18.V3.guard-structure", construct, "never rewritten")
+        if mn in ("call", "jmp") and ops in ("T", "T,x"):
+            ctx.check(case_rewrites.get((mn, ops), 0) > 0, "C18.V3.direct-branches-are-tagged", construct, "no tagging path",
+                      f"a direct `{mn}` whose target lies in the range is tagged on some path")
     # V7: the verdict is computed from this observer's own range on every call
     def thunk2(I):
         res = []
